@@ -137,6 +137,43 @@ Section Pressure.
                 | p :: r => b <- f p ;; r' <- go r ;; Ok (if b then p :: r' else r')
                 end.
 
+  (* rule 1: `if round(min(instr_ports), 2) <= 0:` ... residual hand-over, zeroing, removal from indices *)
+  Definition rule1 (ps : list T) (mn : T) (pp1 : list T) (ind : list nat) (ip2 df2 : list T)
+    : res (list T * list nat * list T * list T * nat) :=
+    m <- list_min ip2 ;;
+    if nleb N (nround2 N m) zero then
+      r0 <- (if negb (neqb N m zero) then
+               mini <- index_of ps mn ;;
+               ipa <- add_at ip2 mini m ;;
+               m2 <- list_min ipa ;;
+               dfa <- add_at df2 mini m2 ;;
+               m3 <- list_min ipa ;; kk <- index_of ipa m3 ;;
+               dfb <- del_nth dfa kk ;;
+               ppa <- setmany pp1 ind ipa ;;
+               zs <- filter_res (fun p => v <- nth_res ppa p ;;
+                                          Ok (orb (neqb N (nround2 N v) zero) (nltb N v zero))) ind ;;
+               match zs with
+               | [] => Err EIndex
+               | zi :: _ => ppb <- set_nth ppa zi zero ;; Ok (ppb, ipa, dfb, 0)
+               end
+             else Ok (pp1, ip2, df2, 1)) ;;
+      let '(pp', ip', df', ex) := r0 in
+      ind' <- filter_res (fun p => v <- nth_res pp' p ;; Ok (nltb N zero v)) ind ;;
+      ip'' <- getmany pp' ind' ;;
+      Ok (pp', ind', ip'', df', ex)
+    else Ok (pp1, ind, ip2, df2, 0).
+
+  (* rule 2: `if round(min(differences), 2) <= 0:` ... never remove more than cycles/len(ports) *)
+  Definition rule2 (pp2 : list T) (ind2 : list nat) (ip3 df3 : list T) : res (list nat * list T * list T) :=
+    md <- list_min df3 ;;
+    if nleb N (nround2 N md) zero then
+      kd <- index_of df3 md ;;
+      ind' <- del_nth ind2 kd ;;
+      ip' <- getmany pp2 ind' ;;
+      df' <- del_nth df3 kd ;;
+      Ok (ind', ip', df')
+    else Ok (ind2, ip3, df3).
+
   Definition bstep (k : list instr) (idx : nat) (s : bstate) : res bstate :=
     let pp := b_pp s in let ind := b_ind s in let ip := b_ip s in let df := b_df s in let ps := b_ps s in
     mx <- list_max ps ;; maxi <- index_of ps mx ;;
@@ -144,36 +181,9 @@ Section Pressure.
     ip1 <- sub_at ip maxi INC ;; ip2 <- add_at ip1 mini INC ;;
     df1 <- sub_at df maxi INC ;; df2 <- add_at df1 mini INC ;;
     pp1 <- setmany pp ind ip2 ;;
-    m <- list_min ip2 ;;
-    r1 <- (if nleb N (nround2 N m) zero then
-             r0 <- (if negb (neqb N m zero) then
-                      ipa <- add_at ip2 mini m ;;
-                      m2 <- list_min ipa ;;
-                      dfa <- add_at df2 mini m2 ;;
-                      m3 <- list_min ipa ;; kk <- index_of ipa m3 ;;
-                      dfb <- del_nth dfa kk ;;
-                      ppa <- setmany pp1 ind ipa ;;
-                      zs <- filter_res (fun p => v <- nth_res ppa p ;;
-                                                 Ok (orb (neqb N (nround2 N v) zero) (nltb N v zero))) ind ;;
-                      match zs with
-                      | [] => Err EIndex
-                      | zi :: _ => ppb <- set_nth ppa zi zero ;; Ok (ppb, ipa, dfb, 0)
-                      end
-                    else Ok (pp1, ip2, df2, 1)) ;;
-             let '(pp', ip', df', ex) := r0 in
-             ind' <- filter_res (fun p => v <- nth_res pp' p ;; Ok (nltb N zero v)) ind ;;
-             ip'' <- getmany pp' ind' ;;
-             Ok (pp', ind', ip'', df', ex)
-           else Ok (pp1, ind, ip2, df2, 0)) ;;
+    r1 <- rule1 ps mn pp1 ind ip2 df2 ;;
     let '(pp2, ind2, ip3, df3, ex) := r1 in
-    md <- list_min df3 ;;
-    r2 <- (if nleb N (nround2 N md) zero then
-             kd <- index_of df3 md ;;
-             ind' <- del_nth ind2 kd ;;
-             ip' <- getmany pp2 ind' ;;
-             df' <- del_nth df3 kd ;;
-             Ok (ind', ip', df')
-           else Ok (ind2, ip3, df3)) ;;
+    r2 <- rule2 pp2 ind2 ip3 df3 ;;
     let '(ind3, ip4, df4) := r2 in
     ps' <- getmany (tp_sum (set_pp k idx pp2)) ind3 ;;
     Ok (mkb pp2 ind3 ip4 df4 ps' (b_exact0 s + ex)).
@@ -231,6 +241,10 @@ Section Pressure.
     match fuel with
     | O => Err EFuel
     | S fuel' =>
+      (* `if not self.get_throughput_sum(kernel): return` -- no line carries a throughput *)
+      match tp_sum kprog with
+      | [] => Ok (kprog, 0)
+      | _ :: _ =>
       let krev := rev kprog in
       let n := List.length krev in
       (* loop over idx = start .. n-1 on the reversed kernel; state: kernel, last-dict info, exact0 counter *)
@@ -290,6 +304,7 @@ Section Pressure.
         | None => Ok (kout, ex)
         end
       else Ok (kout, ex)
+      end
     end.
 
   Definition balance (ports : list string) (k : list instr) : res (list instr * nat) :=
